@@ -1,11 +1,16 @@
 (* C06 Liveness under fair gossip.  PARTIAL: the convergence bound ("everything commits within K
-   fair all-pairs cycles") needs the termination argument of virtual voting and is NOT proved; it is
-   kept as a Definition and explored by the check (adversarial prefix, then fair cycles until
-   quiescence, bound 30; measured 1-7 cycles).  Proved: the idle condition and the safety facts the
-   liveness argument rests on (a decision, once possible, is forced on all later rounds). *)
+   fair all-pairs cycles") needs a scheduler model and the probabilistic termination argument of
+   virtual voting (coin rounds) and is NOT proved; it is explored by the check (adversarial prefix,
+   then fair cycles until quiescence, bound 30; measured 1-7 cycles).  Proved: the idle condition,
+   the safety facts the liveness argument rests on (a decision, once possible, is forced on all
+   later rounds), and the DETERMINISTIC CORE of termination on the abstract voting loop
+   (Model/Voting.v): unanimity is decided at the next normal round, hence within two rounds; a
+   supermajority of equal votes makes the next normal round unanimous, hence decided within three;
+   the coin is used only by witnesses whose tally has no supermajority.  What stays outside: that
+   some coin round eventually produces unanimity (probability 1, not a theorem here). *)
 From Coq Require Import ZArith List Bool.
-From V Require Import Model.ZMap Model.Quorum Model.Voting Model.VotingRef Model.NodeModel
-  Proofs.NodeProofs Proofs.VotingProofs Proofs.VotingTheorems.
+From V Require Import Model.ZMap Model.Quorum Model.Voting Model.VotingRef Model.VotingExamples Model.VotingWitness Model.NodeModel
+  Proofs.NodeProofs Proofs.VotingProofs Proofs.VotingTheorems Proofs.TidyC06.
 Import ListNotations.
 Open Scope Z_scope.
 
@@ -41,6 +46,146 @@ Theorem C06_decider_decides : forall n r P W J, view_ok n r P W J -> forall v,
   fame_loop P (fun j => Some (W j)) r (zrange (r + 1) J) [] = Some (Some v).
 Proof. exact (fun n r P W J H v => proj2 (VOTE_decision_iff_decider n r P W J H v)). Qed.
 Print Assumptions C06_decider_decides.
+
+(** The deterministic core of termination.  [view_ok n r P W J]: a well-formed view (n validators,
+    candidate of round r, witnesses W j of rounds r+1..J, every witness strongly sees a
+    supermajority of the previous round); [Vz .. j y] = the vote of witness y of round j,
+    [decider .. j y] = y decides in round j; [decided_by .. J' v] = the loop of DecideFame run over
+    the rounds r+1..J' returns the decision v.  A round j is normal when (j - r) mod 4 <> 0. *)
+
+(* (a) all round-(r+1) witnesses vote the same way (all see the candidate or none does): fame is
+   decided at round r+2 (distance 2) as soon as that round has a witness *)
+Theorem C06_unanimous_decides_next_round : forall n r P W J, view_ok n r P W J -> forall v y,
+  r + 2 <= J -> In y (W (r + 2)) ->
+  (forall w, In w (W (r + 1)) -> seesb P w = v) ->
+  fame_loop P (fun j => Some (W j)) r (zrange (r + 1) (r + 2)) [] = Some (Some v) /\
+  fame_loop P (fun j => Some (W j)) r (zrange (r + 1) J) [] = Some (Some v).
+Proof. exact unanimous_decides_next_round. Qed.
+Print Assumptions C06_unanimous_decides_next_round.
+
+(* in general: once the votes of some round j0 are unanimous, fame is decided at the next normal
+   round -- j0+1, or j0+2 when j0+1 is a coin round (which stays unanimous) -- hence within 2
+   rounds *)
+Theorem C06_unanimity_decides_within_two_rounds : forall n r P W J, view_ok n r P W J -> forall j0 v y1 y2,
+  r + 1 <= j0 -> j0 + 2 <= J -> In y1 (W (j0 + 1)) -> In y2 (W (j0 + 2)) ->
+  (forall w, In w (W j0) -> Vz P W r (sm n) j0 w = v) ->
+  decided_by r P W (j0 + 2) v /\ decided_by r P W J v.
+Proof. exact unanimity_decides_within_two_rounds. Qed.
+Print Assumptions C06_unanimity_decides_within_two_rounds.
+
+Theorem C06_unanimity_decides_at_next_normal_round : forall n r P W J, view_ok n r P W J -> forall j0 v j y,
+  r + 1 <= j0 -> j0 < j <= J -> 0 < (j - r) mod 4 -> In y (W j) ->
+  (forall w, In w (W j0) -> Vz P W r (sm n) j0 w = v) ->
+  decided_by r P W j v /\ decided_by r P W J v.
+Proof. exact unanimity_decides_at_next_normal_round. Qed.
+Print Assumptions C06_unanimity_decides_at_next_normal_round.
+
+(* (b) U: all round-j witnesses of the history (known to the view or not; at most n); A: a
+   supermajority of them (the honest ones, say) voting v as far as the view knows them.  If j+1 is
+   a normal round, every witness of round j+1 VOTES v ... *)
+Theorem C06_supermajority_forces_next_round : forall n r P W J, view_ok n r P W J -> forall j U A v,
+  r + 1 <= j -> j + 1 <= J -> 0 < (j + 1 - r) mod 4 ->
+  NoDup U -> Z.of_nat (length U) <= n -> incl (W j) U ->
+  NoDup A -> incl A U -> sm n <= Z.of_nat (length A) ->
+  (forall w, In w A -> In w (W j) -> Vz P W r (sm n) j w = v) ->
+  forall y, In y (W (j + 1)) -> Vz P W r (sm n) (j + 1) y = v.
+Proof. exact supermajority_forces_next_round. Qed.
+Print Assumptions C06_supermajority_forces_next_round.
+
+(* ... so that fame is decided at most 3 rounds after the supermajority: at j+2, or at j+3 when
+   j+2 is a coin round *)
+Theorem C06_supermajority_decides_within_three_rounds : forall n r P W J, view_ok n r P W J ->
+  forall j U A v y2 y3,
+  r + 1 <= j -> j + 3 <= J -> 0 < (j + 1 - r) mod 4 ->
+  NoDup U -> Z.of_nat (length U) <= n -> incl (W j) U ->
+  NoDup A -> incl A U -> sm n <= Z.of_nat (length A) ->
+  (forall w, In w A -> In w (W j) -> Vz P W r (sm n) j w = v) ->
+  In y2 (W (j + 2)) -> In y3 (W (j + 3)) ->
+  decided_by r P W (j + 3) v /\ decided_by r P W J v.
+Proof. exact supermajority_decides_within_three_rounds. Qed.
+Print Assumptions C06_supermajority_decides_within_three_rounds.
+
+(* The stronger reading of (b) -- "every witness of round j+1 DECIDES v" -- is FALSE: a witness of
+   round j+1 strongly sees only a supermajority of round j, of which as few as 2*sm - n vote v.
+   Witness: 4 validators (sm = 3), candidate of round 0; witnesses 1,2,3 of round 1 see it, 4 does
+   not; each witness of round 2 strongly sees 4 and two of the others: tally 2 < 3, nobody decides
+   in round 2 (everybody votes true); round 3 decides. *)
+Definition C06_supermajority_decides_next_round_statement : Prop :=
+  forall n r P W J j A v, view_ok n r P W J ->
+    r + 1 <= j -> j + 1 <= J -> 0 < (j + 1 - r) mod 4 ->
+    NoDup A -> incl A (W j) -> sm n <= Z.of_nat (length A) ->
+    (forall w, In w A -> Vz P W r (sm n) j w = v) ->
+    forall y, In y (W (j + 1)) -> decider P W r (sm n) (j + 1) y = true.
+
+(* the witness view is Model/VotingWitness.v (c06_P, c06_W) *)
+Example C06_counterexample_values :
+  view_okb 4 0 c06_P c06_W 3 = true /\
+  map (Vz c06_P c06_W 0 (sm 4) 1) [1; 2; 3; 4] = [true; true; true; false] /\
+  map (fun y => tallyf (Vz c06_P c06_W 0 (sm 4) 1) (ssset c06_P c06_W 2 y)) [5; 6; 7; 8]
+    = [(true, 2); (true, 2); (true, 2); (true, 2)] /\
+  map (decider c06_P c06_W 0 (sm 4) 2) [5; 6; 7; 8] = [false; false; false; false] /\
+  map (Vz c06_P c06_W 0 (sm 4) 2) [5; 6; 7; 8] = [true; true; true; true] /\
+  fame_loop c06_P (fun j => Some (c06_W j)) 0 (zrange 1 2) [] = Some None /\
+  fame_loop c06_P (fun j => Some (c06_W j)) 0 (zrange 1 3) [] = Some (Some true).
+Proof. vm_compute. repeat split; reflexivity. Qed.
+
+Theorem C06_supermajority_decides_next_round_refuted : ~ C06_supermajority_decides_next_round_statement.
+Proof. exact supermajority_decides_next_round_refuted. Qed.
+Print Assumptions C06_supermajority_decides_next_round_refuted.
+
+(* (c) the coin.  In a coin round a witness votes the majority value of its tally when that tally
+   is a supermajority and flips its coin otherwise; nobody decides in a coin round *)
+Theorem C06_coin_round_vote : forall n r P W j y,
+  r + 2 <= j -> (j - r) mod 4 = 0 ->
+  let vt := tallyf (Vz P W r (sm n) (j - 1)) (ssset P W j y) in
+  (sm n <= snd vt -> Vz P W r (sm n) j y = fst vt) /\
+  (snd vt < sm n -> Vz P W r (sm n) j y = vp_coin P y) /\
+  decider P W r (sm n) j y = false.
+Proof. exact coin_round_vote. Qed.
+Print Assumptions C06_coin_round_vote.
+
+(* two supermajority tallies of one round never disagree: a supermajority tally of one witness
+   fixes the majority value of every other witness's tally *)
+Theorem C06_supermajority_tally_unique : forall n r P W J, view_ok n r P W J -> forall j y y',
+  r + 2 <= j <= J -> In y (W j) -> In y' (W j) ->
+  sm n <= snd (tallyf (Vz P W r (sm n) (j - 1)) (ssset P W j y)) ->
+  fst (tallyf (Vz P W r (sm n) (j - 1)) (ssset P W j y')) = fst (tallyf (Vz P W r (sm n) (j - 1)) (ssset P W j y)).
+Proof. exact supermajority_tally_unique. Qed.
+Print Assumptions C06_supermajority_tally_unique.
+
+(* hence, in a coin round in which some witness has a supermajority tally for v, every witness
+   votes v, except those WITHOUT a supermajority tally, who vote their own coin: the coin matters
+   exactly when (and for the witnesses for whom) no value reaches a supermajority *)
+Theorem C06_coin_only_without_supermajority : forall n r P W J, view_ok n r P W J -> forall j y y',
+  r + 2 <= j <= J -> (j - r) mod 4 = 0 -> In y (W j) -> In y' (W j) ->
+  sm n <= snd (tallyf (Vz P W r (sm n) (j - 1)) (ssset P W j y)) ->
+  Vz P W r (sm n) j y = fst (tallyf (Vz P W r (sm n) (j - 1)) (ssset P W j y)) /\
+  (Vz P W r (sm n) j y' = fst (tallyf (Vz P W r (sm n) (j - 1)) (ssset P W j y)) \/
+   (snd (tallyf (Vz P W r (sm n) (j - 1)) (ssset P W j y')) < sm n /\ Vz P W r (sm n) j y' = vp_coin P y')).
+Proof. exact coin_round_votes. Qed.
+Print Assumptions C06_coin_only_without_supermajority.
+
+(* and after a unanimous round the coin is not used at all, in any round: everybody has a
+   supermajority tally for the unanimous value *)
+Theorem C06_coin_irrelevant_when_unanimous : forall n r P W J, view_ok n r P W J -> forall j v y,
+  r + 2 <= j <= J -> (forall w, In w (W (j - 1)) -> Vz P W r (sm n) (j - 1) w = v) -> In y (W j) ->
+  Vz P W r (sm n) j y = v /\ sm n <= snd (tallyf (Vz P W r (sm n) (j - 1)) (ssset P W j y)).
+Proof. exact coin_irrelevant_when_unanimous. Qed.
+Print Assumptions C06_coin_irrelevant_when_unanimous.
+
+(* non-vacuity.  Model/VotingExamples.v ex2: five rounds of four witnesses, rounds 2 and 3 split
+   2/2 (tallies of 2, no supermajority), round 4 is a coin round in which every witness, having no
+   supermajority tally, votes its coin (41, 42, 43: false; 44: true); a round-5 witness that does
+   not strongly see 44 then has a tally of 3 for false and decides "not famous".  So the
+   hypotheses of the theorems above are satisfiable and the coin is really used. *)
+Example C06_example_core :
+  view_okb 4 0 ex2_P ex2_W 5 = true /\
+  map (fun y => snd (tallyf (Vz ex2_P ex2_W 0 (sm 4) 3) (ssset ex2_P ex2_W 4 y))) (ex2_W 4) = [2; 2; 2; 2] /\
+  map (Vz ex2_P ex2_W 0 (sm 4) 4) (ex2_W 4) = map (vp_coin ex2_P) (ex2_W 4) /\
+  fame_loop ex2_P (fun j => Some (ex2_W j)) 0 (zrange 1 5) [] = Some (Some false) /\
+  (* the counterexample view above also instantiates (a)-(b): round 2 is unanimous, round 3 decides *)
+  decided_by 0 c06_P c06_W 3 true.
+Proof. vm_compute. repeat split; reflexivity. Qed.
 
 (* NOT STATED IN COQ: the convergence bound itself.  A faithful statement needs a scheduler model
    (n cores exchanging event diffs, self-event creation with environment-supplied hashes) that this
